@@ -483,9 +483,46 @@ Proof.
   rewrite E, R2. eexists. split; [reflexivity|]. split; reflexivity.
 Qed.
 
-(* what may follow an operand: no identifier byte, and a dot only in front of a name *)
-Definition kont (K : str) : Prop :=
-  is_ident_char (hd 0%N K) = false /\ (hd 0%N K = 46%N -> isDigit (hd 0%N (tl K)) = false).
+(* expressions that may be the object of a member access without parentheses; a '.' directly
+   behind one of them starts a member access unless it is a decimal integer literal (the lexer
+   reads "1." as a number) *)
+Definition obj_ok (g : expr) : bool :=
+  match g with
+  | ENil | ELet _ _ _ | EBinary _ _ _ _ | EUnary _ _ _ | EPostfix _ _ _ | EAssign _ _ _ | ECompound _ _ _ _ => false
+  | _ => true
+  end.
+Definition dot_ok (g : expr) : bool := obj_ok g && negb (is_decimal_int g).
+
+(* what may follow the text of the expression [g]: no identifier byte, and a dot only behind an
+   expression that can take one *)
+Definition kont (g : expr) (K : str) : Prop :=
+  is_ident_char (hd 0%N K) = false /\ (hd 0%N K = 46%N -> dot_ok g = true).
+
+Lemma dot_ok_int t : dot_ok (EInt t) = true -> forallb isDigit (t_lit t) = false.
+Proof. unfold dot_ok. cbn [obj_ok is_decimal_int andb]. intro H. apply negb_true_iff in H. exact H. Qed.
+
+Lemma dot_ok_groupify e : dot_ok (groupify e) = dot_ok e.
+Proof. unfold dot_ok. rewrite is_decimal_int_groupify. destruct e; reflexivity. Qed.
+
+(* operands of call level or tighter can take a member access *)
+Lemma obj_ok_prec o : printable o = true -> (A_PrecedenceCall <=? prec_of o) = true -> obj_ok o = true.
+Proof.
+  destruct o; try reflexivity; intros Hp H; exfalso; try discriminate Hp; try (vm_compute in H; discriminate H).
+  cbn [printable] in Hp. destruct (binop_level (t_type t)) as [lv|] eqn:Hb; [|discriminate Hp].
+  rewrite (prec_of_binary _ _ _ _ _ Hb) in H. pose proof (binop_level_range _ _ Hb). unfold A_PrecedenceCall in H. lia.
+Qed.
+
+Lemma obj_ok_level e : (L_LHS <=? level e) = true -> obj_ok e = true.
+Proof.
+  destruct e; try reflexivity; cbn [level]; intro H; exfalso; try (vm_compute in H; discriminate H).
+  destruct (binop_level (t_type t)) as [lv|] eqn:Hb; [|vm_compute in H; discriminate H].
+  pose proof (binop_level_range _ _ Hb). unfold L_LHS in H. lia.
+Qed.
+
+Lemma kont_sub g g' K : kont g K -> dot_ok g = false -> kont g' K.
+Proof. intros [H1 H2] D. split; [exact H1|]. intro Q. rewrite (H2 Q) in D. discriminate D. Qed.
+Lemma kont_nic g K : kont g K -> is_ident_char (hd 0%N K) = false.
+Proof. intros [H _]. exact H. Qed.
 
 Lemma ext_peekq K la lb (q : N -> bool) : ext K la lb -> l_rest la <> [] ->
   q 0%N = false -> q (hd 0%N K) = false -> q (peek lb) = q (peek la).
@@ -522,7 +559,7 @@ Proof. rewrite app_assoc. apply last_last. Qed.
 Lemma last_end4 (a b : str) e x : last (a ++ b ++ [e; x]) 0%N = x.
 Proof. change [e; x] with ([e] ++ [x]). rewrite !app_assoc. apply last_last. Qed.
 
-Lemma read_exp_ext K ip fp ty1 la2 lb2 lit ty la' : ext K la2 lb2 -> kont K ->
+Lemma read_exp_ext K ip fp ty1 la2 lb2 lit ty la' : ext K la2 lb2 -> is_ident_char (hd 0%N K) = false ->
   (if ch 101 la2 || ch 69 la2 then
       let e := cur la2 in
       let l3 := read_char la2 in
@@ -532,7 +569,7 @@ Lemma read_exp_ext K ip fp ty1 la2 lb2 lit ty la' : ext K la2 lb2 -> kont K ->
         let '(ed, l5) := lx_read_while isDigit l4 in
         (ip ++ fp ++ [e] ++ sg ++ ed, T_FLOAT, l5)
     else (ip ++ fp, ty1, la2)) = (lit, ty, la') ->
-  l_rest la' = [] -> (ty = T_FLOAT -> isDigit (last lit 0%N) = true) ->
+  l_rest la' = [] -> (ty = T_FLOAT -> isDigit (last lit 0%N) = true \/ last lit 0%N = 46%N) ->
   exists lb',
   (if ch 101 lb2 || ch 69 lb2 then
       let e := cur lb2 in
@@ -544,7 +581,7 @@ Lemma read_exp_ext K ip fp ty1 la2 lb2 lit ty la' : ext K la2 lb2 -> kont K ->
         (ip ++ fp ++ [e] ++ sg ++ ed, T_FLOAT, l5)
     else (ip ++ fp, ty1, lb2)) = (lit, ty, lb') /\ l_rest lb' = K /\ l_had_nl lb' = l_had_nl lb2.
 Proof.
-  intros E [K1 K2] H Hend Hfl.
+  intros E K1 H Hend Hfl.
   assert (KD : isDigit (hd 0%N K) = false) by (unfold is_ident_char in K1; lia).
   destruct (l_rest la2) as [|c2 r2] eqn:R2.
   { destruct (ext_cur_end _ _ _ E R2) as [C1 C2]. unfold ch in *. rewrite C1 in H. rewrite C2.
@@ -617,12 +654,13 @@ Lemma based_peek_nz (c p : N) a b : (c =? 48)%N && ((p =? a)%N || (p =? b)%N) = 
   a <> 0%N -> b <> 0%N -> p <> 0%N.
 Proof. lia. Qed.
 
-Lemma read_number_ext K la lb lit ty la' : ext K la lb -> kont K -> l_rest la <> [] ->
+Lemma read_number_ext K la lb lit ty la' : ext K la lb -> is_ident_char (hd 0%N K) = false ->
+  (hd 0%N K = 46%N -> ty <> T_INT \/ forallb isDigit lit = false) -> l_rest la <> [] ->
   read_number la = (lit, ty, la') -> l_rest la' = [] ->
-  (ty = T_FLOAT -> isDigit (last lit 0%N) = true) ->
+  (ty = T_FLOAT -> isDigit (last lit 0%N) = true \/ last lit 0%N = 46%N) ->
   exists lb', read_number lb = (lit, ty, lb') /\ l_rest lb' = K /\ l_had_nl lb' = l_had_nl lb.
 Proof.
-  intros E KK Hne H Hend Hfl. pose proof KK as [K1 K2].
+  intros E K1 K2 Hne H Hend Hfl. pose proof K1 as KK.
   pose proof (nic_split _ K1) as [_ KD].
   unfold read_number in *. cbv zeta in *.
   pose proof (ext_cur _ _ _ E Hne) as C. unfold ch in *. rewrite C.
@@ -652,19 +690,22 @@ Proof.
   clear B1 B2 B3.
   destruct (lx_read_while isDigit la) as [ip la1] eqn:W1.
   destruct (ext_read_while _ _ _ _ _ _ E W1 (or_intror KD)) as (lb1 & W1b & E1 & D1). rewrite W1b.
-  assert (F : (cur lb1 =? 46)%N && isDigit (peek lb1) = (cur la1 =? 46)%N && isDigit (peek la1)).
-  { clear H. destruct (l_rest la1) as [|c [|d r]] eqn:R1.
-    - destruct (ext_cur_end _ _ _ E1 R1) as [C1 C2]. rewrite C1, C2.
-      assert (P : peek lb1 = hd 0%N (tl K)).
-      { unfold peek. rewrite E1, R1. cbn [app]. destruct K as [|? [|? ?]]; reflexivity. }
-      rewrite P. change ((0 =? 46)%N) with false. cbn [andb].
-      destruct (N.eqb_spec (hd 0%N K) 46) as [Q|Q]; [rewrite (K2 Q)|]; reflexivity.
+  assert (Hip : forallb isDigit ip = true).
+  { unfold lx_read_while in W1. destruct (read_while isDigit (l_rest la) (l_col la)) as [[s1 r1] c1] eqn:RW.
+    inversion W1; subst. exact (proj1 (read_while_inv _ _ _ _ _ _ RW)). }
+  assert (F : (cur lb1 =? 46)%N = (cur la1 =? 46)%N).
+  { destruct (l_rest la1) as [|c r] eqn:R1.
+    - destruct (ext_cur_end _ _ _ E1 R1) as [C1 C2]. rewrite C1, C2. change ((0 =? 46)%N) with false.
+      destruct (N.eqb_spec (hd 0%N K) 46) as [Q|Q]; [exfalso|reflexivity].
+      (* the literal alone was the digits read so far: a dot behind it is excluded *)
+      assert (C0 : cur la1 = 0%N) by exact C1.
+      rewrite C0 in H. change ((0 =? 46)%N) with false in H. cbn iota in H.
+      rewrite C0 in H. change ((0 =? 101)%N || (0 =? 69)%N) with false in H. cbn iota in H.
+      inversion H; subst. destruct (K2 Q) as [N|N]; [congruence|].
+      rewrite app_nil_r in N. rewrite N in Hip. discriminate Hip.
     - assert (N1 : l_rest la1 <> []) by (rewrite R1; discriminate).
-      rewrite (ext_cur _ _ _ E1 N1). destruct (ext_peek_one _ _ _ _ E1 R1) as [-> ->].
-      rewrite KD. reflexivity.
-    - assert (N1 : l_rest la1 <> []) by (rewrite R1; discriminate).
-      rewrite (ext_cur _ _ _ E1 N1), (ext_peek _ _ _ _ _ _ E1 R1). reflexivity. }
-  rewrite F. destruct ((cur la1 =? 46)%N && isDigit (peek la1)) eqn:Fc.
+      rewrite (ext_cur _ _ _ E1 N1). reflexivity. }
+  rewrite F. destruct ((cur la1 =? 46)%N) eqn:Fc.
   - assert (N1 : l_rest la1 <> []).
     { intro R1. unfold cur in Fc. rewrite R1 in Fc. cbn in Fc. discriminate Fc. }
     destruct (ext_read_char _ _ _ E1 N1) as [Ed Dd].
@@ -716,8 +757,7 @@ Definition gf_final (ip fp : str) (hasdot : bool) (x : Z * str * str * bool) : b
   | [], _ => false
   | _, _ :: _ => false
   | _, [] =>
-      if hasdot && (match fp with [] => true | _ => false end) then false
-      else if has_exp && (match ed with [] => true | _ => false end) then false
+      if has_exp && (match ed with [] => true | _ => false end) then false
       else
         match digits_value 10 (ip ++ fp) 0, digits_value 10 ed 0 with
         | Some m, Some e =>
@@ -772,34 +812,37 @@ Proof.
 Qed.
 
 Lemma gf_final_true ip fp hd_ sg ed r3 he : gf_final ip fp hd_ (sg, ed, r3, he) = true ->
-  ip <> [] /\ r3 = [] /\ (hd_ = true -> fp <> []) /\ (he = true -> ed <> []).
+  ip <> [] /\ r3 = [] /\ (he = true -> ed <> []).
 Proof.
   unfold gf_final. destruct ip as [|x ip']; [discriminate|]. destruct r3; [|discriminate].
-  destruct hd_; destruct fp; cbn [andb]; try discriminate;
-    destruct he; destruct ed; cbn [andb]; try discriminate; intros _;
+  destruct he; destruct ed; cbn [andb]; try discriminate; intros _;
     repeat split; congruence.
 Qed.
 
-Lemma go_float_last lit : go_float_ok lit = true -> isDigit (last lit 0%N) = true.
+(* a literal strconv accepts as a float ends in a digit or, with an empty fraction, in its dot *)
+Lemma go_float_last lit : go_float_ok lit = true -> isDigit (last lit 0%N) = true \/ last lit 0%N = 46%N.
 Proof.
   unfold go_float_ok. intro Hgf. apply andb_true_iff in Hgf as [Hgf _]. revert Hgf.
   rewrite go_float_unfold.
   destruct (take_digits lit) as [ip r1] eqn:T1. apply take_digits_spec in T1 as [-> Lip].
   destruct (frac_part r1) as [fp r2] eqn:F.
   destruct (exp_part r2) as [[[sg ed] r3] he] eqn:X.
-  intro H. apply gf_final_true in H as (Nip & -> & Hd & He).
+  intro H. apply gf_final_true in H as (Nip & -> & He).
   apply exp_part_spec in X.
-  assert (T : forall a : str, a <> [] -> isDigit (last a 0%N) = true -> isDigit (last (a ++ r2) 0%N) = true).
+  assert (T : forall a : str, a <> [] -> (isDigit (last a 0%N) = true \/ last a 0%N = 46%N) ->
+              isDigit (last (a ++ r2) 0%N) = true \/ last (a ++ r2) 0%N = 46%N).
   { intros a Na La. destruct X as [[-> <-]|(-> & pre & Np & -> & Led)].
     - rewrite app_nil_r. exact La.
-    - rewrite app_nil_r. rewrite app_assoc. apply last_app_digit; [apply He; reflexivity|].
+    - left. rewrite app_nil_r. rewrite app_assoc. apply last_app_digit; [apply He; reflexivity|].
       apply Led. apply He. reflexivity. }
   apply frac_part_spec in F as [(D & -> & Lfp)|(D & -> & ->)].
   - change (ip ++ 46%N :: fp ++ r2) with (ip ++ [46%N] ++ fp ++ r2). rewrite !app_assoc.
     apply T.
     + destruct ip; discriminate.
-    + apply last_app_digit; [apply Hd; exact D|]. apply Lfp. apply Hd. exact D.
-  - apply T; [exact Nip|apply Lip; exact Nip].
+    + destruct fp as [|f0 fp'].
+      * right. rewrite app_nil_r. apply last_last.
+      * left. apply last_app_digit; [discriminate|]. apply Lfp. discriminate.
+  - apply T; [exact Nip|left; apply Lip; exact Nip].
 Qed.
 
 Lemma is_word_int : is_word_type T_INT = true. Proof. reflexivity. Qed.
@@ -811,10 +854,11 @@ Proof.
 Qed.
 
 Lemma lex1_number ty lit K : relex_word ty lit = true -> (ty = T_INT \/ ty = T_FLOAT) ->
-  (ty = T_FLOAT -> go_float_ok lit = true) -> kont K ->
+  (ty = T_FLOAT -> go_float_ok lit = true) ->
+  is_ident_char (hd 0%N K) = false -> (hd 0%N K = 46%N -> ty <> T_INT \/ forallb isDigit lit = false) ->
   isDigit (hd 0%N lit) = true /\ lex1 lit ty lit K /\ lex1 (32%N :: lit) ty lit K.
 Proof.
-  intros H Hty Hfl KK.
+  intros H Hty Hfl KK K46.
   assert (W : is_word_type ty = true) by (destruct Hty; subst ty; reflexivity).
   destruct (alone_word _ _ H W) as (l1 & t & l2 & Hr & Ne & B & Ty & Li & R2).
   assert (HL : isLetter (cur l1) = false).
@@ -841,7 +885,7 @@ Proof.
   rewrite (base_digit l HLl HDl). cbv zeta.
   assert (E : ext K l1 l) by (unfold ext; rewrite Hl, Hr; reflexivity).
   assert (N1 : l_rest l1 <> []) by (rewrite Hr; discriminate).
-  destruct (read_number_ext K l1 l _ _ _ E KK N1 RN R2) as (lb' & RNb & Rb & Db).
+  destruct (read_number_ext K l1 l _ _ _ E KK K46 N1 RN R2) as (lb' & RNb & Rb & Db).
   { intro Tf. apply go_float_last. apply Hfl. exact Tf. }
   rewrite RNb. do 2 eexists. split; [reflexivity|]. unfold new_token_at.
   cbn [t_type t_lit t_nl l_rest l_had_nl]. repeat split; try assumption. congruence.
@@ -1348,7 +1392,7 @@ Definition JP (ops : list wop) (g : expr) (c : N) (fty : Z) : Prop :=
     wrun (gs b lv mp) ops = gs (b ++ sp ++ body) lv mp /\
     (sp = [32%N] \/ (sp = [] /\ nofuse b c)) /\
     hd 0%N body = c /\
-    forall K, kont K -> forall l, l_rest l = sp ++ body ++ K ->
+    forall K, kont g K -> forall l, l_rest l = sp ++ body ++ K ->
       exists e' ts l', lexes l ts l' /\ l_rest l' = K /\
         (forall R, m_expr e' (ts ++ R) = Some R) /\
         shape_expr e' = shape_expr g /\
@@ -1360,7 +1404,7 @@ Proof. unfold norm_tok. intros -> ->. reflexivity. Qed.
 Lemma eat_tok_refl t R : eat_tok t (t :: R) = Some R.
 Proof. unfold eat_tok. rewrite tok_eqb_refl. reflexivity. Qed.
 
-Lemma kont_cons c X : is_ident_char c = false -> c <> 46%N -> kont (c :: X).
+Lemma kont_cons {g} c X : is_ident_char c = false -> c <> 46%N -> kont g (c :: X).
 Proof. intros H1 H2. split; cbn [hd]; [exact H1|congruence]. Qed.
 
 Lemma hd_app_ne (a b : str) : a <> [] -> hd 0%N (a ++ b) = hd 0%N a.
@@ -1372,7 +1416,7 @@ Proof. intros (_ & _ & H) E ->. cbn in E. congruence. Qed.
 (* a single token written as the text [w] *)
 Lemma JP_atom ops w ty lit g c (mk : token -> expr) :
   (forall b lv mp, wrun (gs b lv mp) ops = gs (b ++ w) lv mp) ->
-  (forall K, kont K -> lex1 w ty lit K) -> w <> [] -> ty <> T_EOF ->
+  (forall K, kont g K -> lex1 w ty lit K) -> w <> [] -> ty <> T_EOF ->
   hd 0%N w = c -> c <> 43%N -> c <> 45%N ->
   (forall t', t_type t' = ty -> t_lit t' = lit ->
      (forall R, m_expr (mk t') (t' :: R) = Some R) /\ shape_expr (mk t') = shape_expr g) ->
@@ -1461,7 +1505,7 @@ Proof.
   - cbn [app]. rewrite app_nil_r. exact J.
 Qed.
 
-Lemma kont_type_text ty s X : type_text ty = Some s -> ty <> T_DOT -> kont (s ++ X).
+Lemma kont_type_text {g} ty s X : type_text ty = Some s -> ty <> T_DOT -> kont g (s ++ X).
 Proof.
   unfold type_text.
   repeat match goal with
@@ -1495,9 +1539,10 @@ Lemma JP_infix opsL gL cL tyL mid s ty opsR gR cR tyR t (mk : token -> expr -> e
      (forall R, m_expr eL (tsL ++ R) = Some R) -> (forall R, m_expr eR (tsR ++ R) = Some R) ->
      m_expr (mk t' eL eR) (tsL ++ t' :: tsR ++ R) = Some R) ->
   (forall t' eL eR, shape_expr (mk t' eL eR) = mk (norm_tok t') (shape_expr eL) (shape_expr eR)) ->
+  dot_ok (mk t gL gR) = false ->
   JP (opsL ++ mid ++ opsR) (mk t gL gR) cL tyL.
 Proof.
-  intros JL JR OsL Os Wm T ND Ty Li M S b lv mp.
+  intros JL JR OsL Os Wm T ND Ty Li M S DK b lv mp.
   destruct (JL b lv mp) as (sp & body & W & Sp & Hd & Lx).
   destruct (JR ((b ++ sp ++ body) ++ s) lv mp) as (sp2 & body2 & W2 & Sp2 & Hd2 & Lx2).
   exists sp, (body ++ s ++ sp2 ++ body2). split.
@@ -1509,7 +1554,7 @@ Proof.
   { rewrite Hl, <- !app_assoc. reflexivity. }
   destruct (punct_step ty s _ l1 T (pbnd_operand _ _ _ _ K _ Sp2 Hd2 Os) R1)
     as (t' & l2 & L2 & Ty' & Li' & Nl' & R2).
-  destruct (Lx2 K HK l2 R2) as (eR & tsR & l3 & L3 & R3 & MR & SR & FR).
+  destruct (Lx2 K (kont_sub _ _ _ HK DK) l2 R2) as (eR & tsR & l3 & L3 & R3 & MR & SR & FR).
   exists (mk t' eL eR), (tsL ++ [t'] ++ tsR), l3.
   split; [eapply lexes_app; [exact L1|eapply lexes_app; eassumption]|]. split; [exact R3|].
   split; [|split].
@@ -1546,7 +1591,7 @@ Definition JE (e : expr) : Prop :=
 Definition JL (ops : list wop) (gl : list expr) : Prop :=
   forall b lv mp, exists body,
     wrun (gs b lv mp) ops = gs (b ++ body) lv mp /\
-    forall K, kont K -> forall l, l_rest l = body ++ K ->
+    forall K, kont ENil K -> forall l, l_rest l = body ++ K ->
       exists es' ts l', lexes l ts l' /\ l_rest l' = K /\
         (forall R, m_exprs m_expr es' (ts ++ R) = Some R) /\
         map shape_expr es' = map shape_expr gl.
@@ -1575,7 +1620,7 @@ Proof.
     + exists (sp ++ body). split.
       { rewrite sep_map_one. cbv beta. rewrite app_nil_r. exact W. }
       intros K HK l Hl. rewrite <- app_assoc in Hl.
-      destruct (Lx K HK l Hl) as (e' & ts & l' & L & R & M & S & _).
+      destruct (Lx K (kont_sub _ _ _ HK eq_refl) l Hl) as (e' & ts & l' & L & R & M & S & _).
       exists [e'], ts, l'. repeat split; try assumption. cbn [map]. rewrite S. reflexivity.
     + destruct (IH ((b ++ sp ++ body) ++ [44%N]) lv mp) as (body2 & W2 & Lx2).
       exists ((sp ++ body) ++ 44%N :: body2). split.
@@ -1607,7 +1652,7 @@ Proof. unfold isLetter, ostart. lia. Qed.
 Lemma digit_ostart c : isDigit c = true -> ostart c /\ c <> 43%N /\ c <> 45%N.
 Proof. unfold isDigit, ostart. lia. Qed.
 
-Lemma kont_nil : kont []. Proof. split; cbn; [reflexivity|discriminate]. Qed.
+Lemma kont_nil {g} : kont g []. Proof. split; cbn; [reflexivity|discriminate]. Qed.
 
 Lemma J_ident i : ident_lexical i = true -> JE (EIdent i).
 Proof.
@@ -1634,12 +1679,13 @@ Qed.
 Lemma J_int t : (t_type t =? T_INT) && relex_word T_INT (t_lit t) && go_int_ok (t_lit t) = true -> JE (EInt t).
 Proof.
   intro H. apply andb_true_iff in H as [H H3]. apply andb_true_iff in H as [H1 H2]. apply Z.eqb_eq in H1.
-  destruct (lex1_number _ _ [] H2 (or_introl eq_refl) ltac:(discriminate) kont_nil) as (HD & _).
+  destruct (lex1_number _ _ [] H2 (or_introl eq_refl) ltac:(discriminate) eq_refl ltac:(intro Q; discriminate Q)) as (HD & _).
   destruct (digit_ostart _ HD) as (Os & C1 & C2).
   split; [exact Os|]. cbn [write_expr fb first_type groupify]. rewrite H1.
   apply (JP_atom _ (t_lit t) T_INT (t_lit t) _ _ (fun t' => EInt t')).
   - intros b lv mp. wsimp. reflexivity.
-  - intros K HK. apply (lex1_number _ _ K H2 (or_introl eq_refl) ltac:(discriminate) HK).
+  - intros K [HK1 HK2]. apply (lex1_number _ _ K H2 (or_introl eq_refl) ltac:(discriminate) HK1).
+    intro Q. right. apply dot_ok_int. exact (HK2 Q).
   - intro E. rewrite E in HD. discriminate HD.
   - discriminate.
   - reflexivity.
@@ -1653,12 +1699,13 @@ Qed.
 Lemma J_float t : (t_type t =? T_FLOAT) && relex_word T_FLOAT (t_lit t) && go_float_ok (t_lit t) = true -> JE (EFloat t).
 Proof.
   intro H. apply andb_true_iff in H as [H H3]. apply andb_true_iff in H as [H1 H2]. apply Z.eqb_eq in H1.
-  destruct (lex1_number _ _ [] H2 (or_intror eq_refl) (fun _ => H3) kont_nil) as (HD & _).
+  destruct (lex1_number _ _ [] H2 (or_intror eq_refl) (fun _ => H3) eq_refl ltac:(intro Q; discriminate Q)) as (HD & _).
   destruct (digit_ostart _ HD) as (Os & C1 & C2).
   split; [exact Os|]. cbn [write_expr fb first_type groupify]. rewrite H1.
   apply (JP_atom _ (t_lit t) T_FLOAT (t_lit t) _ _ (fun t' => EFloat t')).
   - intros b lv mp. wsimp. reflexivity.
-  - intros K HK. apply (lex1_number _ _ K H2 (or_intror eq_refl) (fun _ => H3) HK).
+  - intros K [HK1 _]. apply (lex1_number _ _ K H2 (or_intror eq_refl) (fun _ => H3) HK1).
+    intros _. left. discriminate.
   - intro E. rewrite E in HD. discriminate HD.
   - discriminate.
   - reflexivity.
@@ -1797,6 +1844,7 @@ Proof.
   - intros t' eL eR tsL tsR R Ty' Li' _ ML MR. cbn [m_expr]. rewrite Ty', Hb, Li', str_eqb_refl. cbn [negb].
     rewrite ML, eat_tok_refl. apply MR.
   - reflexivity.
+  - reflexivity.
 Qed.
 
 Lemma J_assign t l v : printable (EAssign t l v) = true -> lexical (EAssign t l v) = true ->
@@ -1826,6 +1874,7 @@ Proof.
   - intros t' eL eR tsL tsR R Ty' Li' _ ML MR. cbn [m_expr]. rewrite Ty'.
     change (T_ASSIGN =? T_ASSIGN) with true. cbn [negb].
     rewrite ML, eat_tok_refl. apply MR.
+  - reflexivity.
   - reflexivity.
 Qed.
 
@@ -1865,6 +1914,7 @@ Proof.
   - exact Li.
   - intros t' eL eR tsL tsR R Ty' Li' _ ML MR. cbn [m_expr]. rewrite Ty', Want, str_eqb_refl. cbn [negb].
     rewrite ML, eat_tok_refl. apply MR.
+  - reflexivity.
   - reflexivity.
 Qed.
 
@@ -1923,7 +1973,7 @@ Proof.
     - cbn [app] in Hl. rewrite <- !app_assoc in Hl.
       destruct (punct_step _ _ _ l TT PB Hl) as (t' & l1 & L1 & Ty1 & Li1 & _ & R1). eauto 8. }
   destruct St as (t' & l1 & L1 & Ty1 & Li1 & R1).
-  destruct (Lx2 K HK l1 R1) as (eR & tsR & l2 & L2 & R2 & MR & SR & _).
+  destruct (Lx2 K (kont_sub _ _ _ HK eq_refl) l1 R1) as (eR & tsR & l2 & L2 & R2 & MR & SR & _).
   exists (EUnary t' (t_lit t) eR), ([t'] ++ tsR), l2.
   split; [eapply lexes_app; eassumption|]. split; [exact R2|]. split; [|split].
   - intro R. cbn [m_expr app]. rewrite Ty1, Tys, Li1, str_eqb_refl. cbn [negb orb].
@@ -2032,10 +2082,10 @@ Proof.
   - destruct FO as (t0 & ts0 & -> & F). eexists t0, _. split; [reflexivity|exact F].
 Qed.
 
-Lemma J_member_dot t o i : lexical (EMember t o (EIdent i) false) = true -> JE o ->
+Lemma J_member_dot t o i : lexical (EMember t o (EIdent i) false) = true -> obj_ok o = true -> JE o ->
   JE (EMember t o (EIdent i) false).
 Proof.
-  cbn [lexical]. intros Hl [Oo Jo].
+  cbn [lexical]. intros Hl Hob [Oo Jo].
   apply andb_true_iff in Hl as [Hl1 Hl]. apply andb_true_iff in Hl as [Hl2 Hl3].
   destruct (punct_inv _ _ Hl2) as [Ty TT]. rewrite type_text_dot in TT. inversion TT as [Li].
   unfold ident_lexical in Hl3. apply andb_true_iff in Hl3 as [Hi H3]. apply andb_true_iff in Hi as [H1 H2].
@@ -2044,18 +2094,30 @@ Proof.
   assert (Ni : id_value i <> []) by (intro E; rewrite E in HL; discriminate HL).
   split; [exact Oo|].
   cbn [write_expr fb first_type groupify]. unfold write_ident.
+  (* the blank that keeps a decimal integer literal and the dot apart *)
+  set (bl := if is_decimal_int o then [32%N] else @nil N).
+  assert (Wb : forall b lv mp,
+    wrun (gs b lv mp) (if negb false && is_decimal_int o then [WRune 32%N] else []) = gs (b ++ bl) lv mp).
+  { intros. unfold bl. destruct (is_decimal_int o); cbn [negb andb]; wsimp; rewrite ?app_nil_r; reflexivity. }
   intros b lv mp.
   destruct (Jo b lv mp) as (sp & body & W & Sp & Hd & Lx).
-  exists sp, (body ++ 46%N :: id_value i). split.
-  { wsimp. rewrite W. wsimp. f_equal. rewrite <- !app_assoc. reflexivity. }
+  exists sp, (body ++ bl ++ 46%N :: id_value i). split.
+  { wsimp. rewrite W, Wb. wsimp. f_equal. rewrite <- !app_assoc. reflexivity. }
   split; [exact Sp|]. split; [rewrite (hd_app_ne _ _ (ostart_ne _ _ Oo Hd)); exact Hd|].
   intros K HK l Hl.
-  destruct (Lx (46%N :: id_value i ++ K)) with (l := l) as (eO & tsO & l1 & L1 & R1 & MO & SO & FO).
-  { split; cbn [hd tl]; [reflexivity|]. intros _. rewrite (hd_app_ne _ _ Ni).
-    unfold isLetter in HL. unfold isDigit. lia. }
-  { rewrite Hl, <- !app_assoc. reflexivity. }
-  destruct (punct_step T_DOT [46%N] _ l1 type_text_dot ltac:(pfree) R1)
-    as (t1 & l2 & L2 & Ty1 & Li1 & _ & R2).
+  destruct (Lx (bl ++ 46%N :: id_value i ++ K)) with (l := l) as (eO & tsO & l1 & L1 & R1 & MO & SO & FO).
+  { unfold bl. destruct (is_decimal_int o) eqn:DI; [apply kont_cons; [reflexivity|discriminate]|].
+    split; cbn [app hd tl]; [reflexivity|]. intros _. rewrite dot_ok_groupify. unfold dot_ok.
+    rewrite Hob, DI. reflexivity. }
+  { rewrite Hl, <- !app_assoc. cbn [app]. rewrite <- ?app_assoc. reflexivity. }
+  assert (PS : exists t1 l2, lexes l1 [t1] l2 /\ t_type t1 = T_DOT /\ t_lit t1 = [46%N] /\
+                             l_rest l2 = id_value i ++ K).
+  { unfold bl in R1. destruct (is_decimal_int o).
+    - destruct (punct_step_sp T_DOT [46%N] _ l1 type_text_dot ltac:(pfree) R1)
+        as (t1 & l2 & L2 & Ty1 & Li1 & _ & R2). eauto 7.
+    - destruct (punct_step T_DOT [46%N] _ l1 type_text_dot ltac:(pfree) R1)
+        as (t1 & l2 & L2 & Ty1 & Li1 & _ & R2). eauto 7. }
+  destruct PS as (t1 & l2 & L2 & Ty1 & Li1 & R2).
   destruct HK as [HK1 _].
   destruct (lex1_word _ _ K H3 eq_refl ltac:(discriminate) ltac:(discriminate) HK1) as (_ & LW & _).
   destruct (lex1_lexes _ _ _ _ LW Ni ltac:(discriminate) l2 R2) as (t2 & l3 & L3 & Ty2 & Li2 & _ & R3).
@@ -2116,7 +2178,7 @@ Definition shp (kv : expr * expr) : expr * expr := (shape_expr (fst kv), shape_e
 Definition JPR (ops : list wop) (gl : list (expr * expr)) : Prop :=
   forall b lv mp, exists body,
     wrun (gs b lv mp) ops = gs (b ++ body) lv mp /\
-    forall K, kont K -> forall l, l_rest l = body ++ K ->
+    forall K, kont ENil K -> forall l, l_rest l = body ++ K ->
       exists ps' ts l', lexes l ts l' /\ l_rest l' = K /\
         (forall R, m_props m_expr ps' (ts ++ R) = Some R) /\
         map shp ps' = map shp gl.
@@ -2140,7 +2202,7 @@ Proof.
   - cbn [fst snd] in *.
     destruct (Jk b lv mp) as (sp & body & W & Sp & Hd & Lx).
     destruct (Jv ((b ++ sp ++ body) ++ [58%N]) lv mp) as (sp2 & body2 & W2 & Sp2 & Hd2 & Lx2).
-    assert (ONE : forall K, kont K -> forall l, l_rest l = sp ++ body ++ 58%N :: sp2 ++ body2 ++ K ->
+    assert (ONE : forall K, kont ENil K -> forall l, l_rest l = sp ++ body ++ 58%N :: sp2 ++ body2 ++ K ->
               exists k' v' ts l', lexes l ts l' /\ l_rest l' = K /\ key_ok k' = true /\
                 (forall R, exists R1, m_expr k' (ts ++ R) = Some R1 /\
                    exists tc R2, eat T_COLON R1 = Some (tc, R2) /\ m_expr v' R2 = Some R) /\
@@ -2149,7 +2211,7 @@ Proof.
       destruct (Lx (58%N :: sp2 ++ body2 ++ K) ltac:(apply kont_cons; [reflexivity|discriminate]) l Hl)
         as (k' & tsk & l1 & L1 & R1 & Mk & Sk & _).
       destruct (colon_step _ l1 R1) as (tc & l2 & L2 & Tc & R2).
-      destruct (Lx2 K HK l2 R2) as (v' & tsv & l3 & L3 & R3 & Mv & Sv & _).
+      destruct (Lx2 K (kont_sub _ _ _ HK eq_refl) l2 R2) as (v' & tsv & l3 & L3 & R3 & Mv & Sv & _).
       exists k', v', (tsk ++ [tc] ++ tsv), l3.
       split; [eapply lexes_app; [exact L1|eapply lexes_app; eassumption]|]. split; [exact R3|].
       rewrite (key_groupify _ Kk) in Sk.
@@ -2285,12 +2347,12 @@ Proof.
     apply J_call; auto. apply Forall_JE; assumption.
   - (* EMember *)
     pose proof Hl as Hl'. cbn [printable lexical] in Hp, Hl'.
-    apply andb_true_iff in Hp as [Hp Hp3]. apply andb_true_iff in Hp as [_ Hp2].
+    apply andb_true_iff in Hp as [Hp Hp3]. apply andb_true_iff in Hp as [Hpc Hp2].
     apply andb_true_iff in Hl' as [Hl1 Hl2].
     destruct c.
     + apply andb_true_iff in Hl2 as [_ Hl3]. apply J_member_computed; auto.
     + apply andb_true_iff in Hl2 as [_ Hl3]. destruct e2; try discriminate Hl3.
-      apply J_member_dot; auto.
+      apply J_member_dot; auto. apply obj_ok_prec; assumption.
   - (* EAssign *)
     pose proof Hp as Hp'. pose proof Hl as Hl'. cbn [printable lexical] in Hp', Hl'.
     apply andb_true_iff in Hp' as [Hp0 Hp3]. apply andb_true_iff in Hp0 as [_ Hp2].
